@@ -42,7 +42,7 @@ impl Property for Occurrences {
     fn budget(&self, tier: Tier) -> Budget {
         Budget {
             cases: tier.pick(300_000, 20_000_000),
-            tape_len: 900,
+            tape_len: 2500,
         }
     }
     fn decode(&self, t: &mut Tape<'_>) -> OccCase {
